@@ -301,6 +301,34 @@ def _bind(h: _Helper, call: ast.Call, caller_names: Set[str], caller_self: Optio
     return prologue, expr_map, rename
 
 
+def _fold_constant_branches(stmts: List[ast.stmt]) -> List[ast.stmt]:
+    """after a constant argument was substituted for a parameter: `if True: A else: B` is A, `x if False else y` is y"""
+    class F(ast.NodeTransformer):
+        def visit_IfExp(self, node):
+            self.generic_visit(node)
+            if isinstance(node.test, ast.Constant):
+                return node.body if node.test.value else node.orelse
+            return node
+
+        def visit_UnaryOp(self, node):
+            self.generic_visit(node)
+            if isinstance(node.op, ast.Not) and isinstance(node.operand, ast.Constant) and isinstance(node.operand.value, (bool, type(None))):
+                return ast.copy_location(ast.Constant(value=not node.operand.value), node)
+            return node
+    out: List[ast.stmt] = []
+    for st in stmts:
+        st = F().visit(st)
+        for fld in ("body", "orelse", "finalbody"):
+            sub = getattr(st, fld, None)
+            if isinstance(sub, list) and sub and isinstance(sub[0], ast.stmt) and not isinstance(st, (ast.FunctionDef, ast.ClassDef)):
+                setattr(st, fld, _fold_constant_branches(sub) or ([ast.Pass()] if fld == "body" else []))
+        if isinstance(st, ast.If) and isinstance(st.test, ast.Constant):
+            out.extend(st.body if st.test.value else st.orelse)
+            continue
+        out.append(st)
+    return out
+
+
 def _expand(h: _Helper, call: ast.Call, res: Optional[str], caller_names: Set[str], caller_self: Optional[str], at: ast.AST) -> List[ast.stmt]:
     overwritten: Set[str] = set()
     if isinstance(at, ast.Assign) and (at.value is call or (isinstance(at.value, ast.YieldFrom) and at.value.value is call)):
@@ -313,6 +341,7 @@ def _expand(h: _Helper, call: ast.Call, res: Optional[str], caller_names: Set[st
     body = single_exit(body, res)
     sub = _Subst(expr_map, rename)
     new_body = [sub.visit(st) for st in body]
+    new_body = _fold_constant_branches(new_body)
     out = prologue + new_body
     if not out:
         out = [ast.Pass()]
@@ -681,6 +710,7 @@ def inline_module(tree: ast.Module, known: Optional[Set[str]]) -> ast.Module:
             return keep
         tree.body = drop(tree.body)
         ast.fix_missing_locations(tree)
+        tree._sa_inlined = True  # type: ignore
     return tree
 
 
